@@ -28,9 +28,11 @@ def collect_catalogue(results, shape_private):
             kinds[gid[key]] = kind_of.get(lid, "M")
         return gid[key]
 
+    examples = {}
     for r in results:
         shape = r["entry"].split("::")[1].split("__")[0]
         kind_of = shape_private.get(shape, {})
+        exs = {tuple(k): (inp, clean) for (k, inp, clean) in r.get("wait_examples", [])}
         for (aw, mode, hx, hs) in r.get("waits", []):
             a = g(shape, aw, kind_of)
             hxs = frozenset(g(shape, i, kind_of) for i in range(32) if hx >> i & 1)
@@ -39,6 +41,12 @@ def collect_catalogue(results, shape_private):
                 mode = 0
             key = (a, mode, hxs, hss)
             cat.setdefault(key, set()).add(r["entry"])
+            ex = exs.get((aw, mode if kinds.get(a) != "M" else mode, hx, hs)) or exs.get((aw, 0, hx, hs)) or exs.get((aw, 1, hx, hs))
+            if ex is not None:
+                cur = examples.get(key)
+                if cur is None or (ex[1] and not cur[2]):
+                    examples[key] = (r["entry"], ex[0], ex[1], aw)
+    collect_catalogue.examples = examples
     return cat, kinds
 
 
@@ -102,7 +110,7 @@ def deadlock_query(cat, n_threads, width=64):
             i = m.eval(sel, model_completion=True).as_long()
             e = entries[i]
             model["threads"].append({"awaits": e[0], "mode": "X" if e[1] == 0 else "S", "holds_x": sorted(e[2]),
-                                     "holds_s": sorted(e[3]), "example_entries": sorted(cat[e])[:3]})
+                                     "holds_s": sorted(e[3]), "example_entries": sorted(cat[e])[:3], "key": [e[0], e[1], sorted(e[2]), sorted(e[3])]})
     return str(r), dt, model, s.to_smt2()
 
 
@@ -127,3 +135,26 @@ def cross_check(smt2, tag):
     except OSError:
         pass
     return out
+
+
+def confirm_deadlock(run, model):
+    """native confirmation: real OS threads execute the real acquisition code of one example entry per
+    thread; each is paused right before its awaited lock, then all proceed; the replay binary reports
+    whether every unfinished thread ends up blocked"""
+    examples = getattr(collect_catalogue, "examples", {})
+    specs = []
+    for t in model["threads"]:
+        key = (t["key"][0], t["key"][1], frozenset(t["key"][2]), frozenset(t["key"][3]))
+        ex = examples.get(key)
+        if ex is None:
+            return None
+        entry, inputs, clean, orig_aw = ex
+        specs.append("%s|%s|%d" % (entry, ",".join("%d:%d" % (a, b) for (a, b) in inputs), orig_aw))
+    try:
+        r = subprocess.run([run.replay_bin, "--mt"] + specs, stdout=subprocess.PIPE, stderr=subprocess.DEVNULL, text=True, timeout=60)
+    except subprocess.TimeoutExpired:
+        return None
+    out = r.stdout
+    model["native_log"] = [l for l in out.splitlines() if l.startswith("MT")][-40:]
+    model["native_cmd"] = specs
+    return "MT-OUTCOME deadlock" in out
